@@ -63,6 +63,7 @@ macro_rules! imp {
                     "saturating_add_unsigned" => s(0).saturating_add_unsigned(u(1)).out(),
                     "saturating_sub_unsigned" => s(0).saturating_sub_unsigned(u(1)).out(),
                     "unsigned_abs" => s(0).unsigned_abs().out(),
+                    "abs" => { if !mode_ok(a[0]) { return Some("skip".into()); } s(1).abs().out() }
                     "carrying_add" => s(0).carrying_add(s(1), b(2)).out(),
                     "borrowing_sub" => s(0).borrowing_sub(s(1), b(2)).out(),
                     "strict_add" => s(0).strict_add(s(1)).out(),
